@@ -267,7 +267,7 @@ def run_open(exe, paths, wd, tag, env, secs=10, asmb=0, fork=1, nprocs=1, timeou
 
 PAR = max(1, min(4, NPROC // 2))
 LEAN_PREFIX = []         # 'VARIANT ...' lines, set by run_check after the variant probe
-VARIANT = dict(int63=False)
+VARIANT = dict(int63=False, eof=False)
 
 
 def lean_batch(drv, lines, timeout=1500):
@@ -763,8 +763,22 @@ def run_check(tier, seed):
         else:
             V.broken_tie('variant probe: unexpected answer of the real library for a dimension length of 2^63+3', pa[:600])
             return V.finish()
-        LEAN_PREFIX[:] = ['VARIANT int63 %d' % (1 if VARIANT['int63'] else 0)]
-        V.cov['tree_variant'] = dict(int63='repaired (B10-3/5/6)' if VARIANT['int63'] else 'present')
+        # repair of F14: a header read beyond the end of the file is refused (Safety.runE / runWE; Props.C19
+        # decode_work_bound_repaired).  Witness replay: the 8-byte file "CDF\x01" + numrecs, which the code as it stands
+        # opens as an empty dataset (everything behind it is read as zeros).
+        pe = os.path.join(wd, 'probe_eof.nc')
+        open(pe, 'wb').write(b'CDF\x01' + be32(0))
+        pb = run_open(open_a, [pe], wd, 'probe2', ASAN_ENV, secs=10, fork=1)[0][0]
+        if pb.startswith('ERR -51'):
+            VARIANT['eof'] = True
+        elif pb.startswith('OK 1 - 0 0 0 -1'):
+            VARIANT['eof'] = False
+        else:
+            V.broken_tie('variant probe: unexpected answer of the real library for the 8-byte file CDF1+numrecs', pb[:600])
+            return V.finish()
+        LEAN_PREFIX[:] = ['VARIANT int63 %d' % (1 if VARIANT['int63'] else 0), 'VARIANT eof %d' % (1 if VARIANT['eof'] else 0)]
+        V.cov['tree_variant'] = dict(int63='repaired (B10-3/5/6)' if VARIANT['int63'] else 'present',
+                                     eof='repaired (F14)' if VARIANT['eof'] else 'present')
         fails = []          # (sig, text, replay)
         dist = {}
         # ---- S4a malformed-file stream
@@ -869,6 +883,20 @@ def run_check(tier, seed):
             p = apigen.gen_rw_program(rng, 'rw_%d.nc' % k, nprocs)
             text = p.text()
             rc, lines, err = run_script_asan(api_a, text, nprocs, wd, 'rw%d' % k)
+            napi += len(lines)
+            for t in p.tags:
+                tags[t] = tags.get(t, 0) + 1
+            f = script_failure(rc, lines, err)
+            if f:
+                fails.append((f[0], f[1], dict(script=text, nprocs=nprocs, replay='mpiexec -n %d apirun(asan build) <script> out' % nprocs)))
+        # metadata-heavy and multi-request programs of the shared generators (copy_att over existing attributes of another
+        # type, rename/delete, redefinition, cancel, abort; many varn segments, interleaving nonblocking requests per wait)
+        nshared = 8 if tier == 'quick' else 60
+        for k in range(nshared):
+            nprocs = rng.choice([1, 1, 2])
+            p = (apigen.gen_meta_program if k % 2 == 0 else apigen.gen_mix_program)(rng, 'sh_%d.nc' % k, nprocs)
+            text = p.text()
+            rc, lines, err = run_script_asan(api_a, text, nprocs, wd, 'sh%d' % k)
             napi += len(lines)
             for t in p.tags:
                 tags[t] = tags.get(t, 0) + 1
